@@ -509,6 +509,7 @@ def structural(stages):
     """structural clauses, stage by stage; returns list of (clause, detail, data)"""
     fails = []
     introduced_total = 0
+    structural.guarded = 0
     for p, before, after in stages:
         occ = occurrences(before)
         names_in = set(occ)
@@ -522,6 +523,8 @@ def structural(stages):
             intro, final = derived[:-1], derived[-1]
             introduced_total += len(intro)
             base = conjuncts(orig.condition)
+            if base and intro:
+                structural.guarded += 1
             for d in derived:
                 have = conjuncts(d.condition)
                 missing = [c for c in base if not any(c == h for h in have)]
@@ -627,6 +630,7 @@ def _evaluate(prog, pipeline, seed_all_names=False):
     sf, intro = structural(stages)
     fails.extend(sf)
     info["introduced"] = intro
+    info["guarded_rewritten"] = structural.guarded
     info["changed"] = intro > 0
     ok, detail, sinfo = semantic(prog, ast, stages[-1][2])
     info.update(sinfo)
@@ -1018,6 +1022,8 @@ def bounded(payload):
                 continue
             if info.get("changed"):
                 nontrivial = True
+            parts["guarded_statements_rewritten"] += info.get("guarded_rewritten", 0)
+            parts["statements_introduced"] += info.get("introduced", 0)
             if info.get("seq_differs"):
                 parts["call_order_changed_but_same_multiset"] += 1
             for clause, detail, data in fails:
